@@ -920,7 +920,7 @@ func TestVerifC32(t *testing.T) {
 		t.Skip("VERIF_OUT not set")
 	}
 	h := &verifutil.Harness{
-		ID: "C32", Exec: verifC32Exec, Gen: verifC32Gen, Quick: 5000, Thorough: 100000,
+		ID: "C32", Exec: verifC32Exec, Gen: verifC32Gen, Quick: 4000, Thorough: 100000,
 		Class:      verifC32Class,
 		NonTrivial: func(op, impl string) bool { return op != "reset" },
 	}
